@@ -49,6 +49,9 @@ CALL = dict(
         # no request of a throttled task is issued before its scheduled time
         "self.schedule_handle.before_request": [f"implies({THROTTLED}, a0 >= total_start + {SCHED})"],
         "self.sampler.add": AT_ADD,
+        # completed-by: a client of the task that completes its parent runs until its OWN runner is done -- it never consults the shared
+        # completion flag (which a faster client of the same task on this worker may already have set)
+        "self.complete.is_set": ["not self.task.completes_parent"],
     },
     loops={
         0: dict(inv=["nev() == _i", "total_start <= $clock", "forall(lambda q: implies(0 <= q and q < nev(), evk(q) == 'add'))"]),
